@@ -356,7 +356,7 @@ pub mod state {
     //@   ens[age_rotation_necessary.post] r == !same_period(age, created_at, &clock_now())
     //@   canary
     //@ fn src/writers/file_log_writer/state.rs impl RollState / fn set_size
-    //@   props C08
+    //@   props C08,C18
     //@   ens[RollState::set_size.post] *final(self) == old(self).with_size(size)
     //@ fn src/writers/file_log_writer/state.rs impl RollState / fn reset_size_and_date
     //@   props C08,C09,C01
@@ -481,7 +481,7 @@ pub mod state {
 
     //@ fn src/writers/file_log_writer/state.rs impl State / fn mount_next_linewriter_if_necessary
     //@   ret r
-    //@   props C01,C08,C09,C19,C07,C18,C16,C06
+    //@   props C01,C08,C09,C19,C07,C18,C16,C06,C14,C15
     //@   req[mount_next.pre.arith] old(self).arith_ok(0)
     //@   ens[mount_next.post] State::mount_post(old(self), force, final(self), r is Ok)
     //@   canary
@@ -568,7 +568,7 @@ pub mod state {
         }
     //@ fn src/writers/file_log_writer/state.rs impl State / fn initialize
     //@   ret r
-    //@   props C06,C01,C19,C08,C09
+    //@   props C06,C01,C19,C08,C09,C07,C14,C16,C15
     //@   req[initialize.pre.arith] old(self).highest_ok()
     //@   ens[initialize.post.active] old(self).active() ==> r is Ok && *final(self) == *old(self)
     //@   ens[initialize.post.err] r is Err ==> *final(self) == *old(self)
@@ -613,7 +613,7 @@ pub mod state {
     //@ fn src/writers/file_log_writer/state.rs impl State / fn write_buffer
     //@   ret r
     //@   rule R46 *
-    //@   props C01,C08,C09,C19,C15,C18,C06
+    //@   props C01,C08,C09,C19,C15,C18,C06,C14,C07,C16
     //@   req[write_buffer.pre.arith] old(self).arith_ok(buf@.len() as int) && old(self).highest_ok()
     //@   req[write_buffer.pre.report] forall|c: ErrorCode| #[trigger] super::util::reportable(c) <==> c is LogFile
     //@   ens[write_buffer.post] State::write_post(old(self), buf@, final(self), r is Ok)
@@ -792,7 +792,7 @@ pub mod state {
     // ---- free functions of state.rs ----------------------------------------------------------------
     //@ fn src/writers/file_log_writer/state.rs fn get_creation_timestamp
     //@   ret r
-    //@   props C09
+    //@   props C09,C06
     //@   closure ~try_get_modification_timestamp ## sig |_e: FlexiLoggerError| -> (r: Result<DateTime<Local>, FlexiLoggerError>)
     //@   closure ~try_get_modification_timestamp ## ens same_ts(r, fs_modified_ts(path_view(path)))
     //@   closure ~get_current_timestamp ## sig |_e: FlexiLoggerError| -> (r: DateTime<Local>)
@@ -800,11 +800,11 @@ pub mod state {
     //@   ens[get_creation_timestamp.post] r == creation_ts(path_view(path))
     //@ fn src/writers/file_log_writer/state.rs fn try_get_creation_timestamp
     //@   ret r
-    //@   props C09
+    //@   props C09,C06
     //@   ens[try_get_creation_timestamp.post] same_ts(r, fs_created_ts(path_view(path)))
     //@ fn src/writers/file_log_writer/state.rs fn try_get_modification_timestamp
     //@   ret r
-    //@   props C09
+    //@   props C09,C06
     //@   rule R3 *
     //@   closure ~md.modified() ## sig |_e: std::io::Error| -> (r: Result<std::time::SystemTime, std::io::Error>)
     //@   closure ~md.modified() ## ens r == md_modified(&md)
@@ -863,7 +863,7 @@ pub mod state {
         }
         //@ fn src/writers/file_log_writer/state/numbers.rs fn index_for_rcurrent
         //@   ret r
-        //@   props C01,C06,C19,C14
+        //@   props C01,C06,C19,C14,C07,C16
         //@   req o_index_for_rcurrent is Some ==> o_index_for_rcurrent->Some_0 < u32::MAX
         //@   req o_index_for_rcurrent is None && highest_index_spec(&config.file_spec) is Some ==> highest_index_spec(&config.file_spec)->Some_0 < u32::MAX - 1
         //@   closure ~get_highest_index ## sig || -> (r: Option<u32>)
